@@ -258,10 +258,10 @@ Proof.
 Qed.
 
 (* ---------- end to end ---------- *)
-Lemma schema_loop_types : forall l c c' a, c_types c = c_types c' -> schema_loop l c a = schema_loop l c' a.
+Lemma schema_loop_types : forall l c c' a, type_iris c = type_iris c' -> schema_loop l c a = schema_loop l c' a.
 Proof.
   induction l as [|[u rq] t IH]; intros c c' a E; simpl; [reflexivity|].
-  rewrite E. destruct (memN u (c_types c')); [apply IH; exact E|]. destruct rq; [reflexivity | apply IH; exact E].
+  rewrite E. destruct (memN u (type_iris c')); [apply IH; exact E|]. destruct rq; [reflexivity | apply IH; exact E].
 Qed.
 
 Lemma derives_schema : forall v p creds d w,
